@@ -1,6 +1,7 @@
 """C11 - session-event classifier."""
 from props.base import *
 CORR_IS_SPEC = True    # fault / no fault (C01) and the event value (C11) are exactly what the property states
+NEEDS_VIEW = True     # session table set up through st_add
 COQ_TARGETS = ['props/Properties_C11.vo']
 EXPECT_KEYS = {'ev'}
 RULE = ('Discover frames with station counts 0..240 (dense 0..8, then 16, 90, 239, 240), the own address at every position / absent / only beyond '
